@@ -30,7 +30,7 @@ TARGET = "Gen/OpEntries.v"
 FIELD_OF_ATTR = {"_mp": "FSite", "tensor": "FSite", "_tensor": "FSite", "array": "FSite",
                  "qn": "FLabel", "_qn": "FLabel", "qntot": "FQntot", "coeff": "FCoeff",
                  "qnidx": "FMeta", "to_right": "FMeta", "dtype": "FMeta"}
-BUFFER_FIELDS = ("FSite", "FLabel", "FQntot")
+BUFFER_FIELDS = ("FSite", "FLabel", "FQntot", "FCoeff")     # coeff: a 0-d ndarray after TTNBase.load
 CONFIG = set(ee.CONFIG_ATTRS) | {"parent", "children", "scheme", "offset", "symbolic_out_ops_list", "primary_ops",
                                  "mpos", "tn2bn", "tn2dofs", "node_idx"}
 # methods of arrays / Matrix that return a view of (or the very) buffer
@@ -56,7 +56,7 @@ def part_tags(t):
             out.add(x)
         elif x.startswith("sub:"):
             a = x[4:]
-            if a not in CONFIG and FIELD_OF_ATTR.get(a) not in ("FCoeff", "FMeta"):
+            if a not in CONFIG and FIELD_OF_ATTR.get(a) not in ("FMeta",):
                 out.add(x)
     return frozenset(out)
 
@@ -144,7 +144,7 @@ def merge_summary(a, b):
 
 
 def summary_key(s):
-    return (sorted((w["kind"], tuple(w["fields"]), w["what"], w["line"]) for w in s["writes"]), s["ret_in"], s["ret_fresh"], sorted(s["shares"]))
+    return (sorted((w["kind"], tuple(w["fields"]), tuple(w.get("inplace", ())), w["what"], w["line"]) for w in s["writes"]), s["ret_in"], s["ret_fresh"], sorted(s["shares"]))
 
 
 class OpScan(ee.Scan):
@@ -157,8 +157,12 @@ class OpScan(ee.Scan):
         self.fold_reset = {}
 
     # ------------------------------------------------------------------ recording with fields
-    def write(self, kind, what, node, fields=()):
+    def write(self, kind, what, node, fields=(), inplace=None):
         w = {"kind": kind, "what": what, "line": getattr(node, "lineno", 0), "fields": sorted(set(fields))}
+        ip = set(inplace or ())
+        if getattr(self, "_augassign", False) and kind == "value_store":
+            ip |= set(fields)           # `x.f op= e`: the existing container is updated in place, not rebound
+        w["inplace"] = sorted(ip)
         if w not in self.writes:
             self.writes.append(w)
         return w
@@ -214,6 +218,23 @@ class OpScan(ee.Scan):
         return None
 
     def stmt(self, s, env, rlist):
+        if isinstance(s, ast.Return) and flat(env.get("$attached", EMPTY)):
+            # TTNS.expectation attaches self.root / ttno.root to temporary dummy nodes: every return must come after the reset
+            self.write("value_store", "return while the root of the input is still attached to a temporary node (" +
+                       ", ".join(sorted(flat(env["$attached"]))) + ")", s, {"FMeta"})
+        if isinstance(s, ast.For) and isinstance(s.iter, (ast.List, ast.Tuple)) and s.iter.elts and not s.orelse \
+                and not any(isinstance(x, (ast.Break, ast.Continue)) for x in ast.walk(s)):
+            for e in s.iter.elts:           # a loop over a literal runs once per element: unrolled (no zero-trip path)
+                self._bind_simple(s.target, flat(self.ev(e, env)), env)
+                if self.block(s.body, env, rlist) == "stop":
+                    return "stop"
+            return "fall"
+        if isinstance(s, ast.AugAssign) and not isinstance(s.target, ast.Name):
+            self._augassign = True
+            try:
+                return super().stmt(s, env, rlist)
+            finally:
+                self._augassign = False
         if isinstance(s, ast.If):
             c = self.const_test(s.test)
             if c is not None:
@@ -236,6 +257,9 @@ class OpScan(ee.Scan):
     def bind(self, target, val, env, node):
         if isinstance(target, ast.Attribute):
             b = flat(self.ev(target.value, env))
+            if target.attr == "parent" and "sub:root" in b and isinstance(getattr(node, "value", None), ast.Constant) \
+                    and node.value.value is None:
+                env["$attached"] = EMPTY
             v = flat(val) if not isinstance(val, tuple) else flat(val)
             what = ast.unparse(target) + " = ..."
             if related(b):
@@ -352,8 +376,10 @@ class OpScan(ee.Scan):
         if not ws:
             return
         fields = set()
+        ipf = set()
         for w in ws:
             fields |= set(w["fields"])
+            ipf |= set(w.get("inplace", ()))
         kinds = {w["kind"] for w in ws}
         if any(w["kind"] == "escape" for w in ws):
             for w in ws:
@@ -365,9 +391,9 @@ class OpScan(ee.Scan):
         if not value_ws:
             return
         if m in ee.GAUGE:
-            self.write("gauge", src, n, fields)
+            self.write("gauge", src, n, fields, inplace=ipf)
         elif recv_is_attr_coeff and recv_name is not None:
-            w = self.write("fold_scale", src, n, fields)
+            w = self.write("fold_scale", src, n, fields, inplace=ipf)
             self.fold_scale[recv_name] = w
         elif all(w["kind"] in BENIGN for w in value_ws):
             seen = set()
@@ -376,9 +402,9 @@ class OpScan(ee.Scan):
                 if k in seen:
                     continue
                 seen.add(k)
-                self.write(w["kind"], src + " -> " + w["what"].split(" -> ")[-1][:40], n, w["fields"])
+                self.write(w["kind"], src + " -> " + w["what"].split(" -> ")[-1][:40], n, w["fields"], inplace=w.get("inplace", ()))
         else:
-            self.write("destructive", src, n, fields)
+            self.write("destructive", src, n, fields, inplace=ipf)
 
     def summaries_for(self, kind, name, idx, consts):
         if consts.get("inplace", 0) is None:          # not a literal: both variants
@@ -452,6 +478,12 @@ class OpScan(ee.Scan):
                     if m == "append" and any(part_tags(t) for t in args):
                         self.share("FSite", n, src)
                     return fs("derived")
+                return EMPTY
+            if m == "add_child" and not related(recv):
+                ts = [flat(self.ev(a, env)) for a in n.args]
+                if any("sub:root" in t for t in ts):
+                    env["$attached"] = fs("attached at line %d" % n.lineno)
+                    self.write("config_store", "temporary re-parenting: " + src, n)
                 return EMPTY
             pr = part_tags(recv)
             if pr and not is_obj(recv):
@@ -696,6 +728,7 @@ def render(rows):
          "Record oprow := mkOp { o_fn : string; o_variant : string; o_param : string;",
          "                       o_ret_is_param : bool;     (* the returned object may be the parameter itself *)",
          "                       o_share : list field;      (* a built object receives a buffer of the parameter in these fields *)",
+         "                       o_inplace : list field;    (* fields whose EXISTING container is updated in place (x.f op= e), not rebound *)",
          "                       o_writes : list pwrite }.", ""]
     names = []
     for i, r in enumerate(rows):
@@ -703,9 +736,10 @@ def render(rows):
         names.append(nm)
         o.append("(* %s :: %s [%s] parameter %s *)" % (r["file"], r["fn"], r["variant"] or "-", r["param"]))
         ws = ["mkPW %s [%s] %s %d" % (WK[w["kind"]], "; ".join(w["fields"]), cs(w["what"][:90]), w["line"]) for w in r["writes"]]
-        o.append("Definition %s : oprow := mkOp %s %s %s %s [%s]" % (
+        ipf = sorted({f for w in r["writes"] for f in w.get("inplace", ())})
+        o.append("Definition %s : oprow := mkOp %s %s %s %s [%s] [%s]" % (
             nm, cs(r["fn"]), cs(r["variant"]), cs(r["param"]), "true" if r["ret_in"] else "false",
-            "; ".join(sorted(r["shares"]))))
+            "; ".join(sorted(r["shares"])), "; ".join(ipf)))
         o.append("  [" + ";\n   ".join(ws) + "].")
         o.append("")
     o.append("Definition oprows : list oprow := [" + "; ".join(names) + "].")
